@@ -24,12 +24,37 @@ structure GenCfg where
   /-- `true` (original emitter): in compare mode the `right == "nil"` interception of a pointer-typed
       struct field runs although the path continues below that field. -/
   nilInterceptAnyDepth : Bool := true
+  /-- `true` (original emitter): for a pointer-typed map value / slice element the nil guard
+      (compiler.go:677-680) runs before the `right == "nil"` test, and no such test is emitted at all for
+      pointer-to-struct/collection elements: `Compare(==, "nil")` on such an element leaves the result untouched. -/
+  elemNilCmpMissing : Bool := true
+  /-- `true` (original emitter): Length/Capacity of a root map/slice type on the empty path report 0
+      (`if len(path) == 0 { return nil }` precedes the branch that would report the root's own len). -/
+  lcRootZero : Bool := true
+  /-- `true` (original emitter): Length/Capacity of a slice whose element type has no `hasc`
+      (a slice of scalars) report 0 — the emitter returns before emitting anything. -/
+  lcScalarSliceZero : Bool := true
+  /-- `true` (original emitter): Length/Capacity on a path that stops on a nested struct index
+      `path[d]` without a length test and panic. -/
+  lcStructStopPanics : Bool := true
+  /-- `true` (original emitter): for a map value / slice element that is itself a struct, map or slice,
+      `if len(path) < d+2 { return nil }` returns before the element's own `len(path) == d+1` branch:
+      Length/Capacity of a collection held in a map or slice store 0. -/
+  lcElemStopZero : Bool := true
 deriving Repr, Inhabited
 
 /-- The configuration that mirrors the tree as it is (flags flip when a `fix:` commit lands). -/
 def GenCfg.repo : GenCfg := {}
 /-- Every listed defect repaired: the configuration the property theorems are proved for. -/
-def GenCfg.fixed : GenCfg := { fallThroughAlways := false, negIndexPanics := false, nilInterceptAnyDepth := false }
+def GenCfg.fixed : GenCfg where
+  fallThroughAlways := false
+  negIndexPanics := false
+  nilInterceptAnyDepth := false
+  elemNilCmpMissing := false
+  lcRootZero := false
+  lcScalarSliceZero := false
+  lcStructStopPanics := false
+  lcElemStopZero := false
 
 /-- After the nested block of a non-basic node: the "special case to take value by pointer"
 (compiler.go:964-975). Not emitted for the root (`v != "x"`). -/
